@@ -159,6 +159,51 @@ type c15Conc struct {
 	delCall [2]map[int]int64
 	accCall [2]map[int]int64
 	badID   string
+	// OpenStreamSync callers: goroutine id -> record (the enqueue stamp is taken at the schedule
+	// point streams.openSync.beforeWait, i.e. after the caller queued itself and released the lock)
+	syncers     sync.Map
+	syncOps     []*c15Syncer
+	cancelStamp int64
+}
+
+// c15Syncer is one OpenStreamSync call as seen from outside.
+type c15Syncer struct {
+	t          int
+	call, ret  int64
+	enq        atomic.Int64 // 0: never seen waiting
+	ok         bool
+	n          int
+	ownTimeout bool // the caller's own context may have been cancelled before cancelAll
+}
+
+var c15CurConc atomic.Pointer[c15Conc]
+
+// c15GoID returns the id of the calling goroutine (from the first line of its stack trace).
+func c15GoID() uint64 {
+	var buf [40]byte
+	b := buf[:runtime.Stack(buf[:], false)]
+	var id uint64
+	for _, ch := range b[len("goroutine "):] {
+		if ch < '0' || ch > '9' {
+			break
+		}
+		id = id*10 + uint64(ch-'0')
+	}
+	return id
+}
+
+// c15NoteWaiting runs at streams.openSync.beforeWait in the caller's goroutine.
+func c15NoteWaiting() {
+	c := c15CurConc.Load()
+	if c == nil {
+		return
+	}
+	if v, ok := c.syncers.Load(c15GoID()); ok {
+		sy := v.(*c15Syncer)
+		if sy.enq.Load() == 0 {
+			sy.enq.Store(c.clock.Add(1))
+		}
+	}
 }
 
 func (c *c15Conc) first(t int, self bool) int {
@@ -288,6 +333,8 @@ func runC15Conc(seed uint64, hostile bool, st c15Stats) (res c15ConcResult) {
 		},
 		uint64(c.lim[c15Bidi]), uint64(c.lim[c15Uni]), pers)
 
+	c15CurConc.Store(c)
+	defer c15CurConc.Store(nil)
 	ctxAll, cancelAll := context.WithCancel(context.Background())
 	defer cancelAll()
 	var wg sync.WaitGroup
@@ -424,6 +471,11 @@ func runC15Conc(seed uint64, hostile bool, st c15Stats) (res c15ConcResult) {
 				if mode == 0 {
 					kind = c15KOpen
 				}
+				var sy *c15Syncer
+				if mode != 0 {
+					sy = &c15Syncer{t: t, ownTimeout: mode == 3}
+					c.syncers.Store(c15GoID(), sy)
+				}
 				call := c.clock.Add(1)
 				var sid protocol.StreamID
 				var err error
@@ -452,6 +504,13 @@ func runC15Conc(seed uint64, hostile bool, st c15Stats) (res c15ConcResult) {
 				out := c15COut{OK: err == nil}
 				if err == nil {
 					out.N = c.num(t, true, sid)
+				}
+				if sy != nil {
+					c.syncers.Delete(c15GoID())
+					sy.call, sy.ret, sy.ok, sy.n = call, c.clock.Add(1), err == nil, out.N
+					c.mu.Lock()
+					c.syncOps = append(c.syncOps, sy)
+					c.mu.Unlock()
 				}
 				c.record(id, c15CIn{Part: t, Kind: kind}, call, out)
 				if err == nil {
@@ -508,6 +567,7 @@ func runC15Conc(seed uint64, hostile bool, st c15Stats) (res c15ConcResult) {
 	for i := 0; i < 3000 && int(finished.Load()) < client; i++ {
 		runtime.Gosched()
 	}
+	c.cancelStamp = c.clock.Add(1)
 	cancelAll()
 	wg.Wait()
 	// quiescent: the limit as the map enforces it now must be the one the history explains
@@ -595,6 +655,28 @@ func (c *c15Conc) check(st c15Stats) (res c15ConcResult) {
 			res.inconcl = fmt.Sprintf("porcupine timeout on a partition of %d operations", len(part))
 		}
 	}
+	// arrival order: caller A was seen waiting (queued, lock released) before caller B even called.
+	// Then B can only get a stream after A left the queue: A holds a lower stream number, or A's
+	// own context was cancelled.  (B's fast path needs an empty queue; B's place is behind A.)
+	for _, a := range c.syncOps {
+		ea := a.enq.Load()
+		if ea == 0 {
+			continue
+		}
+		st["conc_sync_seen_waiting"]++
+		for _, b := range c.syncOps {
+			if b == a || b.t != a.t || !b.ok || b.call < ea {
+				continue
+			}
+			st["conc_sync_ordered_pairs"]++
+			switch {
+			case a.ok && a.n > b.n:
+				fail("C15|conc|sync-order", "OpenStreamSync caller seen waiting at stamp %d got stream number %d, a caller that arrived later (call stamp %d) got the lower number %d (type %d)", ea, a.n, b.call, b.n, a.t)
+			case !a.ok && !a.ownTimeout && b.ret < c.cancelStamp:
+				fail("C15|conc|sync-order", "OpenStreamSync caller seen waiting at stamp %d (no cancellation before stamp %d) never got a stream, a caller that arrived later (call stamp %d, returned %d) got stream number %d (type %d)", ea, c.cancelStamp, b.call, b.ret, b.n, a.t)
+			}
+		}
+	}
 	// control frames (stamped in the callback, which runs under the map's mutex)
 	sort.Slice(c.frames, func(i, j int) bool { return c.frames[i].ts < c.frames[j].ts })
 	var nMax [2]int
@@ -676,7 +758,8 @@ func c15ConcTest(t *testing.T, hostile bool) {
 		}
 	}
 	verifhook.SetAction("streams.accept.beforeWait", delay)
-	verifhook.SetAction("streams.openSync.beforeWait", delay)
+	verifhook.SetAction("streams.openSync.beforeWait", func(n string) { c15NoteWaiting(); delay(n) })
+	verifhook.SetAction("streams.openSync.afterWake", delay)
 	defer verifhook.ClearActions()
 
 	rounds, batch, name := l.Pick(3000, 60000), 50, "conc"
@@ -713,7 +796,7 @@ func c15ConcTest(t *testing.T, hostile bool) {
 		cs.End()
 	}
 	for k, v := range verifhook.Hits() {
-		if k == "streams.accept.beforeWait" || k == "streams.openSync.beforeWait" {
+		if k == "streams.accept.beforeWait" || k == "streams.openSync.beforeWait" || k == "streams.openSync.afterWake" {
 			l.Count("hook_hits_"+k, int64(v))
 		}
 	}
